@@ -1,7 +1,8 @@
 /-
   UVerifProofs.Lemmas.ArealRoundTrip — ingredients of the areal round trip `areal(to_native(b)) = b with the ubit cleared`:
-  binade uniqueness for powers of two, and `region_false_of_value`: a finite double whose value is a lattice value of an
-  areal<nbits,es> (es ≤ 7) lies outside the D13 region of `operator=(double)`.
+  binade uniqueness for powers of two.  (`region_false_of_value` — "a lattice value lies outside the D13 region of
+  operator=(double)" — was removed together with the D13 region: the conversion is repaired and C18_encloses_every_f64 holds
+  for every double.)
 -/
 import UVerifProofs.Props.C18
 import UVerifProofs.Lemmas.ArealNative
@@ -41,192 +42,5 @@ theorem pow2_shift (a : Int) (k : Nat) (b : Int) (h : b = a + k) : pow2 b = pow2
 theorem f64_fields (d : Nat) :
     (d >>> 52) % 2048 = IeeeBits.expOf f64 d ∧ d % 2 ^ 52 = IeeeBits.fracOf f64 d ∧ d.testBit 63 = IeeeBits.signOf f64 d :=
   ⟨rfl, rfl, rfl⟩
-
-/-- a finite double whose value is a (non-last) lattice value of areal<nbits,es> with es ≤ 7 is outside the D13 region -/
-theorem region_false_of_value (c : Model.Cfg) (d e f : Nat) (hes : 1 ≤ c.es) (hes7 : c.es ≤ 7) (hn : c.es + 3 ≤ c.nbits)
-    (hF : c.fbits + 1 < 52) (he : e < 2 ^ c.es) (hf : f < 2 ^ c.fbits)
-    (hlast : ¬ (e = 2 ^ c.es - 1 ∧ f = 2 ^ c.fbits - 1))
-    (hfin : IeeeBits.isFinite f64 d = true)
-    (hval : (IeeeBits.mant f64 d : Rat) * pow2 (IeeeBits.ulpExp f64 d) =
-      (latT (specCfg c) e f : Rat) * pow2 (latE (specCfg c) e)) :
-    d13RegionF64 c d = false := by
-  obtain ⟨g1, g2, g3⟩ := f64_fields d
-  have hre : IeeeBits.expOf f64 d < 2047 := by
-    unfold IeeeBits.isFinite at hfin
-    have h1 : IeeeBits.expOf f64 d < 2 ^ 11 := Nat.mod_lt _ (by norm_num)
-    have h2 : IeeeBits.expOf f64 d ≠ 2047 := by
-      have : (f64.eAll : Nat) = 2047 := by decide
-      rw [← this]; simpa using hfin
-    omega
-  have hfr : IeeeBits.fracOf f64 d < 2 ^ 52 := Nat.mod_lt _ (Nat.two_pow_pos _)
-  -- configuration bounds
-  obtain ⟨P, hP⟩ : ∃ P, 2 ^ (c.es - 1) = P := ⟨_, rfl⟩
-  have hp : P ≤ 64 := by
-    rw [← hP]
-    calc 2 ^ (c.es - 1) ≤ 2 ^ 6 := Nat.pow_le_pow_right (by omega) (by omega)
-      _ = 64 := by norm_num
-  have hp1 : 1 ≤ P := by rw [← hP]; exact Nat.two_pow_pos _
-  have h2e : 2 ^ c.es = 2 * P := by
-    rw [← hP, show c.es = (c.es - 1) + 1 by omega, Nat.pow_succ]; simp; ring
-  have hB : c.EXP_BIAS = (P : Int) - 1 := by unfold Model.Cfg.EXP_BIAS; rw [hP]
-  have hMx : c.MAX_EXP = 2 * (P : Int) - c.EXP_BIAS := by
-    unfold Model.Cfg.MAX_EXP; rw [h2e]; push_cast; ring
-  have hFF : (specCfg c).fbits = c.fbits := rfl
-  have hbias : (specCfg c).bias = c.EXP_BIAS := rfl
-  have hMXb : 2 ≤ c.MAX_EXP ∧ c.MAX_EXP ≤ 65 := by rw [hMx, hB]; omega
-  have hcf : (c.fbits : Int) ≤ 50 := by omega
-  unfold d13RegionF64
-  simp only [g1, g2]
-  generalize hred : IeeeBits.expOf f64 d = re at *
-  generalize hfrd : IeeeBits.fracOf f64 d = fr at *
-  have hmant : IeeeBits.mant f64 d = if re = 0 then fr else fr + 2 ^ 52 := by
-    unfold IeeeBits.mant; rw [hred, hfrd]; rfl
-  have hulp : IeeeBits.ulpExp f64 d = ((Nat.max re 1 : Nat) : Int) - 1075 := by
-    unfold IeeeBits.ulpExp; rw [hred]
-    have hb : (f64.bias : Int) = 1023 := by decide
-    have hf' : (f64.fbits : Int) = 52 := by decide
-    rw [hb, hf']; ring
-  rw [hmant, hulp] at hval
-  by_cases hT : latT (specCfg c) e f = 0
-  · -- the value is zero: d is a zero pattern
-    rw [hT] at hval
-    simp only [Nat.cast_zero, zero_mul] at hval
-    have hm0 : (if re = 0 then fr else fr + 2 ^ 52) = 0 := by
-      have hpp := pow2_pos (((Nat.max re 1 : Nat) : Int) - 1075)
-      rcases mul_eq_zero.mp hval with h | h
-      · exact_mod_cast h
-      · linarith
-    have hre0 : re = 0 := by
-      by_contra h; rw [if_neg h] at hm0; have := Nat.two_pow_pos 52; omega
-    rw [if_pos hre0] at hm0
-    subst hre0; subst hm0
-    simp
-    obtain ⟨m1, m2⟩ := hMXb
-    constructor
-    · omega
-    · intro h; omega
-  · have hT1 : 1 ≤ latT (specCfg c) e f := Nat.one_le_iff_ne_zero.mpr hT
-    have hTR : (1 : Rat) ≤ (latT (specCfg c) e f : Rat) := by exact_mod_cast hT1
-    have hEpos := pow2_pos (latE (specCfg c) e)
-    -- (a) d is a normal double
-    have hElo : (-1022 : Int) ≤ latE (specCfg c) e := by
-      unfold latE; rw [hbias, hFF, hB]
-      have : (1 : Int) ≤ ((Nat.max e 1 : Nat) : Int) := by
-        have : 1 ≤ Nat.max e 1 := Nat.le_max_right _ _
-        exact_mod_cast this
-      omega
-    have hre1 : 1 ≤ re := by
-      by_contra h
-      have hre0 : re = 0 := by omega
-      rw [if_pos hre0, hre0] at hval
-      have hmax : ((Nat.max 0 1 : Nat) : Int) - 1075 = -1074 := by decide
-      rw [hmax] at hval
-      have h1 : (fr : Rat) < ((2 ^ 52 : Nat) : Rat) := by exact_mod_cast hfr
-      have h2 : pow2 (-1022) = pow2 (-1074) * ((2 ^ 52 : Nat) : Rat) := by
-        exact pow2_shift (-1074) 52 (-1022) (by norm_num)
-      have h3 : pow2 (-1022) ≤ pow2 (latE (specCfg c) e) := pow2_mono hElo
-      have hpp := pow2_pos (-1074)
-      nlinarith
-    have hmax : ((Nat.max re 1 : Nat) : Int) = (re : Int) := by
-      have : Nat.max re 1 = re := Nat.max_eq_left hre1
-      rw [this]
-    rw [if_neg (by omega), hmax] at hval
-    -- (b) the binade of d
-    have hm1 : ((2 ^ 52 : Nat) : Rat) ≤ ((fr + 2 ^ 52 : Nat) : Rat) := Nat.cast_le.mpr (Nat.le_add_left _ _)
-    have hm2 : ((fr + 2 ^ 52 : Nat) : Rat) < ((2 ^ 53 : Nat) : Rat) := by
-      apply Nat.cast_lt.mpr
-      have : 2 ^ 53 = 2 ^ 52 + 2 ^ 52 := by rw [show 53 = 52 + 1 by rfl, Nat.pow_succ]; ring
-      rw [this]; exact Nat.add_lt_add_right hfr _
-    have hpd := pow2_pos ((re : Int) - 1075)
-    have hb1 : pow2 ((re : Int) - 1023) = pow2 ((re : Int) - 1075) * ((2 ^ 52 : Nat) : Rat) := by
-      exact pow2_shift ((re : Int) - 1075) 52 _ (by omega)
-    have hb2 : pow2 ((re : Int) - 1023 + 1) = pow2 ((re : Int) - 1075) * ((2 ^ 53 : Nat) : Rat) := by
-      exact pow2_shift ((re : Int) - 1075) 53 _ (by omega)
-    have hV1 : pow2 ((re : Int) - 1023) ≤ ((fr + 2 ^ 52 : Nat) : Rat) * pow2 ((re : Int) - 1075) := by
-      rw [hb1]; nlinarith
-    have hV2 : ((fr + 2 ^ 52 : Nat) : Rat) * pow2 ((re : Int) - 1075) < pow2 ((re : Int) - 1023 + 1) := by
-      rw [hb2]; nlinarith
-    -- the two facts that make every disjunct of the region false
-    have facts : (re : Int) - 1023 ≠ c.MAX_EXP ∧
-        ¬ ((re : Int) - 1023 = c.MAX_EXP - 1 ∧ fr / 2 ^ (52 - c.fbits) = 2 ^ c.fbits - 1) := by
-      have hEI : (e : Int) < 2 * (P : Int) := by
-        have : e < 2 * P := by rw [← h2e]; exact he
-        exact_mod_cast this
-      by_cases he0 : e = 0
-      · -- subnormal lattice value: V < 2^MIN_EXP_NORMAL
-        have hT' : latT (specCfg c) e f = f := by unfold latT; rw [if_pos he0]
-        have hE' : latE (specCfg c) e = 1 - c.EXP_BIAS - (c.fbits : Int) := by
-          unfold latE; rw [he0, hbias, hFF]; simp
-        rw [hT', hE'] at hval
-        have hfR : (f : Rat) < ((2 ^ c.fbits : Nat) : Rat) := Nat.cast_lt.mpr hf
-        have hb3 : pow2 (1 - c.EXP_BIAS) = pow2 (1 - c.EXP_BIAS - (c.fbits : Int)) * ((2 ^ c.fbits : Nat) : Rat) :=
-          pow2_shift _ c.fbits _ (by omega)
-        have hpe := pow2_pos (1 - c.EXP_BIAS - (c.fbits : Int))
-        have hV3 : ((fr + 2 ^ 52 : Nat) : Rat) * pow2 ((re : Int) - 1075) < pow2 (1 - c.EXP_BIAS) := by
-          rw [hval, hb3]; nlinarith
-        have hlt := exp_lt_of_bounds hV1 hV3
-        constructor
-        · omega
-        · rintro ⟨h1, _⟩; omega
-      · -- normal lattice value: same binade, fraction = f · 2^(52-F)
-        have he1 : 1 ≤ e := Nat.one_le_iff_ne_zero.mpr he0
-        have hT' : latT (specCfg c) e f = f + 2 ^ c.fbits := by unfold latT; rw [if_neg he0, hFF]
-        have hE' : latE (specCfg c) e = (e : Int) - c.EXP_BIAS - (c.fbits : Int) := by
-          unfold latE; rw [hbias, hFF, show max e 1 = e from Nat.max_eq_left he1]
-        rw [hT', hE'] at hval
-        have hpe := pow2_pos ((e : Int) - c.EXP_BIAS - (c.fbits : Int))
-        have hT1' : ((2 ^ c.fbits : Nat) : Rat) ≤ ((f + 2 ^ c.fbits : Nat) : Rat) := Nat.cast_le.mpr (Nat.le_add_left _ _)
-        have hT2' : ((f + 2 ^ c.fbits : Nat) : Rat) < ((2 ^ (c.fbits + 1) : Nat) : Rat) := by
-          apply Nat.cast_lt.mpr; rw [Nat.pow_succ]; omega
-        have hb3 : pow2 ((e : Int) - c.EXP_BIAS) = pow2 ((e : Int) - c.EXP_BIAS - (c.fbits : Int)) * ((2 ^ c.fbits : Nat) : Rat) :=
-          pow2_shift _ c.fbits _ (by omega)
-        have hb4 : pow2 ((e : Int) - c.EXP_BIAS + 1) =
-            pow2 ((e : Int) - c.EXP_BIAS - (c.fbits : Int)) * ((2 ^ (c.fbits + 1) : Nat) : Rat) :=
-          pow2_shift _ (c.fbits + 1) _ (by push_cast; omega)
-        have hW1 : pow2 ((e : Int) - c.EXP_BIAS) ≤ ((fr + 2 ^ 52 : Nat) : Rat) * pow2 ((re : Int) - 1075) := by
-          rw [hval, hb3]; nlinarith
-        have hW2 : ((fr + 2 ^ 52 : Nat) : Rat) * pow2 ((re : Int) - 1075) < pow2 ((e : Int) - c.EXP_BIAS + 1) := by
-          rw [hval, hb4]; nlinarith
-        have hbin : (re : Int) - 1023 = (e : Int) - c.EXP_BIAS := binade_unique hV1 hV2 hW1 hW2
-        constructor
-        · omega
-        · rintro ⟨h1, h2⟩
-          apply hlast
-          have hee : e = 2 ^ c.es - 1 := by
-            have : (e : Int) = 2 * (P : Int) - 1 := by omega
-            have : e = 2 * P - 1 := by omega
-            rw [h2e]; exact this
-          refine ⟨hee, ?_⟩
-          -- fraction: fr + 2^52 = (f + 2^F) · 2^(52-F)
-          have hb5 : pow2 ((e : Int) - c.EXP_BIAS - (c.fbits : Int)) =
-              pow2 ((re : Int) - 1075) * ((2 ^ (52 - c.fbits) : Nat) : Rat) :=
-            pow2_shift _ (52 - c.fbits) _ (by omega)
-          rw [hb5] at hval
-          have hcancel : ((fr + 2 ^ 52 : Nat) : Rat) = ((f + 2 ^ c.fbits : Nat) : Rat) * ((2 ^ (52 - c.fbits) : Nat) : Rat) := by
-            have : ((fr + 2 ^ 52 : Nat) : Rat) * pow2 ((re : Int) - 1075) =
-                (((f + 2 ^ c.fbits : Nat) : Rat) * ((2 ^ (52 - c.fbits) : Nat) : Rat)) * pow2 ((re : Int) - 1075) := by
-              rw [hval]; ring
-            exact mul_right_cancel₀ (ne_of_gt hpd) this
-          have hnat : fr + 2 ^ 52 = (f + 2 ^ c.fbits) * 2 ^ (52 - c.fbits) := by
-            have : ((fr + 2 ^ 52 : Nat) : Rat) = (((f + 2 ^ c.fbits) * 2 ^ (52 - c.fbits) : Nat) : Rat) := by
-              rw [hcancel, Nat.cast_mul]
-            exact Nat.cast_injective this
-          have h52 : 2 ^ 52 = 2 ^ c.fbits * 2 ^ (52 - c.fbits) := by
-            have hk : c.fbits + (52 - c.fbits) = 52 := by omega
-            have := Nat.pow_add 2 c.fbits (52 - c.fbits)
-            rw [hk] at this; exact this
-          have hfrq : fr = f * 2 ^ (52 - c.fbits) := by
-            rw [Nat.add_mul, ← h52] at hnat; omega
-          rw [hfrq, Nat.mul_div_cancel _ (Nat.two_pow_pos _)] at h2
-          exact h2
-    obtain ⟨fa1, fa2⟩ := facts
-    have hn2047 : (re == 2047) = false := by simp; omega
-    have hn0 : (re == 0) = false := by simp; omega
-    have hd2 : (((re : Int) - 1023) == c.MAX_EXP) = false := by simpa using fa1
-    simp only [hn2047, hn0, Bool.false_and, Bool.false_or, hd2, Bool.and_false, Bool.or_false]
-    by_cases h3 : (re : Int) - 1023 = c.MAX_EXP - 1
-    · have : ¬ fr / 2 ^ (52 - c.fbits) = 2 ^ c.fbits - 1 := fun h => fa2 ⟨h3, h⟩
-      simp [this]
-    · simp [h3]
 
 end UVerif.ArealLemmas
